@@ -30,7 +30,7 @@ def cfg_of(c):
 
 def build_engine(K, needs_hist, chains, seed, J, init_cfgs, included=(), excluded=(),
                  store_kernel_states=False, error_tables=None, cap=400, via_builder=False, nq=0, prebuild=False,
-                 error_books=None):
+                 error_books=None, minimize_infos=False):
     """prebuild (with via_builder): the builder first builds another engine, which is run to the end and has an epoch
     appended; the engine that is returned is built afterwards from the same builder and must be unaffected."""
     keys = [f"p{k}" for k in range(1, K + 1)]
@@ -88,6 +88,7 @@ def build_engine(K, needs_hist, chains, seed, J, init_cfgs, included=(), exclude
         store_kernel_states=store_kernel_states,
         quantity_generators=qgs,
         show_progress=False,
+        minimize_transition_infos=minimize_infos,
     )
     return eng, kernels, keys
 
